@@ -47,7 +47,9 @@ def run_mutant(prop, name, edits, runs, tier="quick"):
                            timeout=600)
         ok = "REPRODUCED-EXACTLY" in q.stdout
         ops = len(json.load(open(rp)).get("tape", {}).get("ops", []))
-        os.remove(rp)
+        for path in re.findall(r"VIOLATION property=\S+ replay=(\S+)", p.stdout):
+            if os.path.exists(path):
+                os.remove(path)
         return ("CAUGHT monitor=%s ops=%d replay=%s"
                 % (mon, ops, "exact" if ok else "DIVERGED")), mon
     finally:
